@@ -203,7 +203,8 @@ func (eng *Engine) discharge(g *Gen, o *Obl, dir string, idx int, timeout time.D
 		return ans
 	}
 	if o.probe {
-		// a reachability probe must NOT be provable; one quick attempt is enough
+		// a reachability probe must NOT be provable; one quick attempt is enough (a dead return whose probe is not
+		// refuted in that time has its postconditions attempted like any other; time-outs are retried, see runJobs)
 		to := 3 * time.Second
 		if to > timeout {
 			to = timeout
